@@ -2,7 +2,7 @@
    A schedule is an ARBITRARY list of actions (one action = one semaphore operation, process
    start / exit, message to or from a peer; a disabled action is a no-op), the library, the
    selection predicate, the instance order and MaxServers are arbitrary. *)
-From V Require Import C05_Spec C05_Proofs.
+From V Require Import C05_Spec C05_Proofs C05_LoadProofs.
 Open Scope N_scope.
 
 (* ---- which permutations are issued -------------------------------------------------- *)
@@ -165,3 +165,57 @@ Example ex_complete :
   length (complete a1 (mkInst 1 1 true true) true tc3).(r_headers) = 8%nat /\
   length (complete a2 (mkInst 2 2 false false) false tc1).(r_headers) = 1%nat.
 Proof. vm_compute. auto. Qed.
+
+(* ---- which suite files take part (Run: LoadTestSuitesFromFiles -> parseTestSuites) -------- *)
+(* Whatever paths are given (repetitions included): the loaded map has exactly one entry per
+   distinct path, holding the content of that file. *)
+Theorem loader_keeps_every_path : forall (read : path -> option sfile) paths m,
+  load_files read paths = Loaded m ->
+  NoDup (fkeys m) /\
+  (forall p, In p (fkeys m) <-> In p paths) /\
+  (forall p, In p paths -> exists d, read p = Some d /\ lookup_file m p = Some d).
+Proof. intros read paths m. exact (loader_keeps_every_path_proof read paths m). Qed.
+Print Assumptions loader_keeps_every_path.
+
+(* Distinct paths: no file is dropped - the map lists the paths as given, each with its file. *)
+Theorem no_file_dropped : forall (read : path -> option sfile) paths m,
+  NoDup paths -> load_files read paths = Loaded m ->
+  map fst m = paths /\ forall p d, In (p, d) m <-> In p paths /\ read p = Some d.
+Proof. intros read paths m. exact (no_file_dropped_proof read paths m). Qed.
+Print Assumptions no_file_dropped.
+
+(* ... so the permutations of every given file are in the library the run is planned from
+   (`partition` then hands each selected one to a client exactly once). *)
+Theorem every_suite_file_takes_part : forall (read : path -> option sfile) paths m,
+  NoDup paths -> load_files read paths = Loaded m ->
+  loaded_names m =
+  flat_map (fun p => match read p with Some f => names_of_file f | None => [] end) paths.
+Proof. exact every_suite_file_takes_part_proof. Qed.
+Print Assumptions every_suite_file_takes_part.
+
+(* The loader fails exactly when some path is unreadable or is not a .yaml file. *)
+Theorem load_succeeds_iff : forall (read : path -> option sfile) paths,
+  (exists m, load_files read paths = Loaded m) <->
+  forall p, In p paths -> read p <> None /\ is_yaml p = true.
+Proof. intros read paths. exact (load_succeeds_iff_proof read paths). Qed.
+Print Assumptions load_succeeds_iff.
+
+Definition disk : list (path * sfile) :=
+  [ (bs "a/suite.yaml", mkSF (bs "One") [bs "x"; bs "y"]);
+    (bs "b/suite.yaml", mkSF (bs "Two") [bs "x"]) ].
+Example ex_load_both :
+  match load_files (lookup_file disk) [bs "a/suite.yaml"; bs "b/suite.yaml"] with
+  | Loaded m => loaded_names m = [bs "One/x"; bs "One/y"; bs "Two/x"]
+  | _ => False end.
+Proof. vm_compute. reflexivity. Qed.
+Example ex_load_errors :
+  load_files (lookup_file disk) [bs "a/suite.yaml"; bs "c/suite.yaml"] = LoadNotReadable (bs "c/suite.yaml") /\
+  load_files (fun _ => Some (mkSF (bs "S") [])) [bs "a/suite.yml"] = LoadNotYaml (bs "a/suite.yml").
+Proof. vm_compute. auto. Qed.
+(* recorded: filing the data under the base name of the path would drop a file *)
+Definition base_name (p : path) : path := last (split_on 47 p) [].
+Example base_name_keying_drops_a_file :
+  match load_from base_name (lookup_file disk) [bs "a/suite.yaml"; bs "b/suite.yaml"] [] with
+  | Loaded m => loaded_names m = [bs "Two/x"]
+  | _ => False end.
+Proof. vm_compute. reflexivity. Qed.
